@@ -228,11 +228,13 @@ Flush ==
                ELSE /\ pc' = "loop" /\ UNCHANGED <<failed, hist, done>>
   /\ UNCHANGED <<buf, full, limit, pLen, pDist, ref, want, symLeft, chunkKind, needReset, nextId, lastBad>>
 
+BadDistAny == \E d \in {full, B} : BadDist(d)          \* the boundary distance and the largest one
+
 Next ==
   \/ \E k \in ReadSizes : CallRead(k)
   \/ Loop \/ ChunkHeader \/ CopyUncompressed \/ RepeatPending \/ Lit \/ EndDecode \/ Flush \/ Marker
   \/ \E d \in 0..B-1, l \in Lens : Match(d, l)
-  \/ \E d \in {full, B} : BadDist(d)          \* the boundary distance and the largest one
+  \/ BadDistAny
 Spec == Init /\ [][Next]_vars
 
 \* ---------------------------------------------------------------- properties
